@@ -322,7 +322,23 @@ def c14(tier, seed, work):
                       "request, with strict and lenient stale-reservation behaviour; TLC compares the returned map with the snapshot.")
 
 
-CHECKS.update({"C12": c12, "C14": c14, "C16": c16})
+def c15(tier, seed, work):
+    fams = [dict(name="c15-sweep", module="MCGenSensor", cfg_tpl="Gen_Cipher.cfg.tpl", family="sweep", tier=tier, seed=seed),
+            dict(name="c15-misc", module="MCGenSensor", cfg_tpl="Gen_Cipher.cfg.tpl", family="misc", tier=tier, seed=seed)]
+    res = walk_check("C15", tier, seed, work, [], [], fams,
+                     "Sensor.tla fixes the decision table (which reader, which refusal, which error and its precedence) and the formula "
+                     "as an exact decimal term; all 256 raw bytes x 3 analog formats x 12 linear/linearised functions (36 sweeps of 256 "
+                     "reads), all 128 linearisation codes x 4 formats for refusal, all 8 flag combinations, M and B boundary-complete over "
+                     "10 bits and all 16 x 16 exponent pairs; the library's value is compared (relative 1e-9) with an independent "
+                     "evaluation (math/big rationals, math.Cbrt, products) of the term TLC attached to the reading.")
+    res["level"] = "exploration"
+    n = sum(f["scripts"] for f in res["coverage"]["families"])
+    res["coverage"]["evaluations"] = sum(f["events"] for f in res["coverage"]["families"]) // 5
+    res["coverage"]["distinct_nontrivial"] = n
+    return res
+
+
+CHECKS.update({"C12": c12, "C14": c14, "C15": c15, "C16": c16})
 
 
 def c03(tier, seed, work):
